@@ -263,17 +263,18 @@ impl<T> OneShotShared<T> {
       // EMPTY or WRITING
       // If empty and all senders are gone, it's disconnected.
       if current_state == STATE_EMPTY && self.sender_count.load(Ordering::Acquire) == 0 {
-        // Attempt to transition to CLOSED if not already done by last sender drop
-        self
-          .state
-          .compare_exchange(
-            STATE_EMPTY,
-            STATE_CLOSED,
-            Ordering::Relaxed,
-            Ordering::Relaxed,
-          )
-          .ok();
-        Err(TryRecvError::Disconnected)
+        // The last sender may have sent its value and gone between the two loads
+        // above: only a state that is still EMPTY now means nothing was ever sent.
+        match self.state.compare_exchange(
+          STATE_EMPTY,
+          STATE_CLOSED,
+          Ordering::AcqRel,
+          Ordering::Acquire,
+        ) {
+          Ok(_) | Err(STATE_CLOSED) => Err(TryRecvError::Disconnected),
+          // SENT (or TAKEN): look again.
+          Err(_) => self.try_recv(),
+        }
       } else {
         Err(TryRecvError::Empty) // Not ready yet, or senders still active / writing
       }
@@ -304,16 +305,17 @@ impl<T> OneShotShared<T> {
           }
           // Check again if all senders dropped AFTER deciding it's Empty
           if current_state == STATE_EMPTY && self.sender_count.load(Ordering::Acquire) == 0 {
-            self
-              .state
-              .compare_exchange(
-                STATE_EMPTY,
-                STATE_CLOSED,
-                Ordering::Relaxed,
-                Ordering::Relaxed,
-              )
-              .ok();
-            return Poll::Ready(Err(RecvError::Disconnected));
+            // Same race as in `try_recv`: a value sent just before the last sender
+            // left must be delivered, not reported as Disconnected.
+            match self.state.compare_exchange(
+              STATE_EMPTY,
+              STATE_CLOSED,
+              Ordering::AcqRel,
+              Ordering::Acquire,
+            ) {
+              Ok(_) | Err(STATE_CLOSED) => return Poll::Ready(Err(RecvError::Disconnected)),
+              Err(_) => continue,
+            }
           }
 
           #[cfg(all(not(loom), excsn_fibre_verif))]
